@@ -150,8 +150,8 @@ def run(tier, seed):
             Uexp = lib.ring_matrix_to_numpy(emitted[ti], ev["M"])
             try:
                 Uout = bridge.circuit_unitary(ev["flt"], ev["n"], ev["M"])
-            except KeyError as e:
-                stats["skipped"][f"bridge {e}"] = stats["skipped"].get(f"bridge {e}", 0) + 1
+            except (KeyError, ValueError) as e:
+                stats["skipped"][f"bridge {type(e).__name__} {e}"] = stats["skipped"].get(f"bridge {type(e).__name__} {e}", 0) + 1
                 continue
             cols = _cols(ev) or list(range(Uout.shape[1]))
             okk = np.allclose(Uout[:, cols], Uexp, atol=BRIDGE_TOL)
